@@ -506,7 +506,7 @@ fn run_uf(n: usize, ops: &[UfOp], obs: &mut Obs) -> Result<(), Fail> {
 pub fn run(ctx: &mut Ctx) {
     let thorough = ctx.tier() == vcommon::Tier::Thorough;
     ctx.rule = "topo_sort: every digraph on <=4 nodes (self-loops allowed) x every hand-in order of the node ids x both predecessor orders, plus random digraphs on <=12 nodes; \
-SubgraphMerge: every labelled DAG on <=3 nodes x every enemy set x every sequence of 3 ordered try_merge attempts, every DAG on 4 nodes x enemy sets of <=1 pair (thorough: <=2 pairs) x sequences of 3 attempts (quick: unordered pairs with alternating argument order; thorough: ordered pairs), plus random DAGs on <=10 nodes with random enemies and <=20 attempts (half along edges); \
+SubgraphMerge: every labelled DAG on <=3 nodes x every enemy set x every sequence of 3 ordered try_merge attempts, every DAG on 4 nodes x enemy sets of <=1 pair x sequences of 3 attempts (quick: unordered pairs with alternating argument order; thorough: ordered pairs, plus all enemy sets of 2 pairs with unordered pairs), plus random DAGs on <=10 nodes with random enemies and <=20 attempts (half along edges); \
 UnionFind: random union/find/same_set histories on <=8 keys. Oracles are from-scratch models (Kahn, quotient graph, class vector). \
 Non-trivial: topo_sort cases with a cycle answer; merge cases with a refused merge or a merge of non-adjacent groups (window re-sorted); union-find histories with >=2 effective unions."
         .into();
@@ -588,16 +588,19 @@ Non-trivial: topo_sort cases with a cycle answer; merge cases with a refused mer
         for i in 0..un.len() {
             esets.push(vec![un[i]]);
         }
-        if thorough {
-            for i in 0..un.len() {
-                for j in i + 1..un.len() {
-                    esets.push(vec![un[i], un[j]]);
-                }
-            }
-        }
         // quick tier: unordered pairs with alternating argument order; thorough: ordered pairs
         let pr = if thorough { pairs(n, true) } else { pairs(n, false) };
         ctx.check_all("merge-exhaustive-n4", merge_space(n, all_dags(n), esets, pr, !thorough), |c, obs| run_merge_case(c, obs));
+        if thorough {
+            // enemy sets of two pairs, unordered attempt pairs with alternating argument order
+            let mut esets2: Vec<Vec<(usize, usize)>> = vec![];
+            for i in 0..un.len() {
+                for j in i + 1..un.len() {
+                    esets2.push(vec![un[i], un[j]]);
+                }
+            }
+            ctx.check_all("merge-exhaustive-n4-two-enemy-pairs", merge_space(n, all_dags(n), esets2, pairs(n, false), true), |c, obs| run_merge_case(c, obs));
+        }
     }
     // cyclic inputs to SubgraphMerge::new
     let mut ccases = vec![];
